@@ -280,6 +280,17 @@ PROPS = {
             dict(name="VerifPageSelectionSyntax", opts=dict(workers=1)),
         ],
     ),
+    "C33": dict(
+        pkg=API,
+        explanation="the arithmetic that decides which pages go where, executed symbolically with the page extraction itself replaced by a recorder: pageSpans and writePageSpans (page count 1..P, span any integer: refused iff <= 0, otherwise consecutive spans of exactly span pages, last possibly shorter, that partition 1..PageCount), writePageSpansSplitAlongPages + validateSplitPageNumbers (lists of 0..K symbolic page numbers, any order / duplicates / out of range: refused, or a partition of 1..PageCount whose parts start exactly at the listed pages), PagesForPageRange; for merging, the object renumbering lookupTable / patchObject / patchDict / patchArray / patchObjects (K symbolic distinct source numbers, symbolic destination size: injective onto size..size+K-1, exactly the references to source objects rewritten, generation kept) under every map-iteration starting point",
+        outside="ExtractPages and the page-tree surgery of merge (appendSourcePageTreeToDestPageTree, InsertPages/AppendPages for zip mode, divider pages), bookmark splits, i.e. that the pages of a span ARE the original pages and that merged page trees list the pages in order: whole-document object graphs",
+        harnesses=[
+            dict(name="VerifSplitSpans", bounds=dict(quick=dict(P=12), thorough=dict(P=31)), opts=dict(unwind=300)),
+            dict(name="VerifSplitSpansFiles", bounds=dict(quick=dict(P=12), thorough=dict(P=31)), opts=dict(unwind=300)),
+            dict(name="VerifSplitAlongPages", bounds=dict(quick=dict(P=8, K=3), thorough=dict(P=30, K=4)), opts=dict(unwind=300)),
+            dict(name="VerifMergeRenumbering", pkg=PD, bounds=dict(quick=dict(K=3), thorough=dict(K=4)), opts=dict(unwind=300, maprotate=True)),
+        ],
+    ),
     "C34": dict(
         pkg=PD,
         explanation="booklet slot functions (nup2/nup4 basic+advanced+top fold/LRTB/nup8/perfect bound) evaluated on SYMBOLIC slot indices i != j: in range and injective, hence a bijection of [0,n) (pigeonhole is the one step outside the solver), for every type x binding x orientation x N in {2,4,6,8} and every padded page count up to SHEETS sheets; the driver getBookletOrdering is run for every configuration that api.validateBookletLayout accepts, multi folio with folio sizes 0..12 included",
